@@ -11,7 +11,7 @@
 (*           by the set of results the contract allows                     *)
 (* The library comes from the cfg.                                         *)
 (***************************************************************************)
-EXTENDS GraphImpl, Json, Lib_core, Lib_ver, Lib_shape
+EXTENDS GraphImpl, Json
 
 CONSTANTS MaxDepth,   \* bound on the number of operations of a history (state constraint)
           FullEvery   \* every FullEvery-th state (by a cheap state digest) carries the rejected candidates
